@@ -578,10 +578,14 @@ impl<Left: Executor, Right: Executor> MergeJoin<Left, Right> {
     }
 
     fn compare_keys(&self, left_keys: &[DataType], right_keys: &[DataType]) -> Ordering {
+        // A row with a NULL key matches nothing, wherever the sort put it: step over it on its own side.
+        if left_keys.iter().any(|l| matches!(l, DataType::Null)) {
+            return Ordering::Less;
+        }
+        if right_keys.iter().any(|r| matches!(r, DataType::Null)) {
+            return Ordering::Greater;
+        }
         for (l, r) in left_keys.iter().zip(right_keys.iter()) {
-            if matches!(l, DataType::Null) || matches!(r, DataType::Null) {
-                return Ordering::Greater;
-            }
             match l.partial_cmp(r) {
                 Some(Ordering::Equal) => continue,
                 Some(ord) => return ord,
